@@ -79,9 +79,35 @@ def donors_for(ctx):
     return ds
 
 
+def run_peephole_shapes(ctx):
+    """PeepholeShapes.tla: control-flow shapes over the leaf forms the peephole pass rewrites, rendered as
+    closures and as global functions, run on the three engines and compared with the specified value."""
+    binary = ctx.build("peep")
+    r = ctx.tlc(["lang/PeepholeShapes.tla", "lang/PeepholeShapes.cfg"], "PeepholeShapes", "PeepholeShapes.cfg", workers=1, tag="peepshapes")
+    js = r.json_lines()
+    if not js:
+        raise Infra("PeepholeShapes printed no table")
+    sf = os.path.join(ctx.work, "peepshapes.json")
+    json.dump(js[0], open(sf, "w"))
+    rf = os.path.join(ctx.work, "peep.results.ndjson")
+    ctx.run([binary, sf, rf], timeout=3000)
+    rows = read_ndjson(rf)
+    summ = [x for x in rows if x.get("summary")][0]
+    return [x for x in rows if not x.get("summary")], summ
+
+
 def check_C34(ctx):
+    pfails, psumm = run_peephole_shapes(ctx)
+    for f in pfails:
+        ctx.report({"kind": "shape-value", "ctl": f["shape"]["ctl"], "engine": f["engine"], "form": f["form"]},
+                   "control-flow shape %s rendered as %s returns %s on %s (outcome %s); PeepholeShapes.tla gives %s\n%s"
+                   % (json.dumps({k: v for k, v in f["shape"].items() if k != "val"}), f["form"], f["got"], f["engine"], f["class"], f["want"], f["err"][:300]),
+                   {"shape": f["shape"], "form": f["form"], "engine": f["engine"], "source": f["src"]})
+    ctx.add_sample({"peephole_shapes": psumm})
     donors = donors_for(ctx)
     rows, summ, stats = run_diff(ctx, donors, "quick")
+    summ["steps"] += psumm["runs"] // 3
+    summ["distinct_histories"] += psumm["shapes"] * 2
     for r in rows:
         if r["kind"] != "engine-diff":
             continue
